@@ -89,6 +89,8 @@ def run_cases(vh, scratch, cases, workers=12, subcmd="wrap"):
             cur = inflight[-1]
             first = next((l for l in p.stderr.splitlines() if l.startswith("panic:") or l.startswith("fatal error:")), p.stderr[:200])
             crashes.append((cur, first, p.stderr[-2500:]))
+            if len(crashes) >= 5:
+                break        # enough evidence; do not grind through a tree that crashes on everything
             ids = [c["id"] for c in todo]
             todo = todo[ids.index(cur) + 1:]
         return results, crashes
@@ -148,6 +150,8 @@ def run_check(pid, tier, replay=None):
             rp = C.write_replay(pid, cid, {"property": pid, "kind": "wrap", "case": byid.get(cid), "crash": stderr})
             violations.append(("process crashed while executing case %s: %s" % (cid, first), rp))
         for r in results:
+            if len(violations) >= 30:
+                break
             ms = r.get("mismatches") or []
             hard = [m for m in ms if m["kind"] in ("ref", "panic")]
             if hard:
